@@ -52,7 +52,9 @@ from ..common import sub_rng
 
 RULE = ("matrix: 4 export functions x target states (existing / absent / missing directories / ancestor is a file / "
         "target is a directory / a folder <target name>_files exists / HTML: existing resource folder, resource path "
-        "is a file, second export) x converter "
+        "is a file, second export) x what the pre-existing file holds (non-UTF-8 bytes, text, nothing, twins of the "
+        "new RTF code: identical / CRLF / CR / BOM / cut short / trailing blank / upper case / UTF-16 / doubled line ends) "
+        "x converter "
         "(7 stub behaviours, failing lookup, real LibreOfficeConverter on a fake soffice: ok/okres/fail/no output, "
         "lookup through PATH) x documents (incl. two whose encode raises); proc: the real LibreOfficeConverter (explicit / "
         "found on PATH) over fake soffice PROCESSES = exit status (0, 1, 2, 3, 77, 255, killed by KILL/TERM/HUP) x written "
@@ -243,7 +245,7 @@ def res_is_target(r):
 def case_label(case):
     c = case.get("conv") or {}
     return f"{case['fn']}/{case['docname']}/{case['state']}/{c.get('mode', '-')}:{c.get('beh', '-')}" + \
-        ("/twice" if case.get("twice") else "") + \
+        ("/twice" if case.get("twice") else "") + (f"/old={case['old']}" if case.get("old") else "") + \
         (f"/name={case['tname']!r}" if case.get("tname") else "") + (f"/as={case['form']}" if case.get("form") else "")
 
 
@@ -251,6 +253,8 @@ def slim(case, r=None):
     """what a replay file stores"""
     d = {k: case[k] for k in ("fn", "docname", "doc", "state", "conv", "fault", "twice", "tname", "form", "nclass")
          if k in case}
+    if case.get("old"):
+        d["old"] = case["old"]
     if r is not None:
         d["observed"] = {k: r.get(k) for k in ("raised", "exc", "kind", "trace", "fired_site", "k", "swallowed",
                                                 "arg", "conv_in_name", "conv_out_name", "res_name", "proc")}
@@ -279,6 +283,17 @@ def judge(res, case, r, d):
         fails.append("oracle clauses violated on the real file system: " + ", ".join(viol) + extra)
     if r.get("conv_input") is not None and r.get("enc") is not None and r["conv_input"] != r["enc"]:
         fails.append("the converter was not given exactly the string rtf_encode() returned")
+    # "write_rtf stores exactly the string rtf_encode() returns": with an encoder that returned, no injected fault
+    # and a target location that can be written, a raise (other than from the operating system) is not an outcome
+    # the statement allows — whatever the pre-existing file holds
+    writable = case["state"] in ("existing", "absent", "missing_dirs", "named_files_dir")
+    if (fn == "rtf" and writable and r["raised"] and not r["fired"] and not r["enc_failed"] and r.get("enc") is not None
+            and r["kind"] not in ("os", "encode", "injected")):
+        fails.append(f"write_rtf raised {r['exc']} although rtf_encode() returned and nothing failed: the target does not "
+                     f"hold the string (pre-existing file: {case.get('old') or 'fixed non-UTF-8 bytes'}; target "
+                     + target_change(r) + ")")
+    if r.get("pre_exc") and fn == "rtf" and writable and not r["enc_failed"]:
+        fails.append(f"the earlier write_rtf to the same path raised {r['pre_exc']} although the document encodes")
     if r["kind"].startswith("other:"):
         dis.append(f"real call raised an unclassified exception {r['exc']}")
     # correspondence
@@ -373,6 +388,8 @@ def run_cases(res, cases, phase):
         res.count(f"{phase}:{c['fn']}")
         res.count("outcome:" + ("injected" if (o["fired"] and not o["swallowed"]) else o["kind"]))
         res.count("state:" + c["state"])
+        if c["state"] in ("existing", "existing_res", "res_is_file", "named_files_dir"):
+            res.count("pre-existing-content:" + (c.get("old") or "fixed(non-UTF-8 bytes)"))
         if o.get("proc"):
             count_proc(res, c, o)
         if c.get("nclass"):
@@ -408,8 +425,10 @@ CONV_STATES = ["existing", "absent", "missing_dirs", "parent_is_file", "target_i
 HTML_STATES = ["existing_res", "res_is_file"]
 
 
-def mk(fn, docname, state, conv=None, fault=None, twice=False, sites=False, tname=None, form=None, nclass=None):
+def mk(fn, docname, state, conv=None, fault=None, twice=False, sites=False, tname=None, form=None, nclass=None, old=None):
     c = dict(fn=fn, docname=docname, doc=DOCS[docname], state=state, fault=fault)
+    if old is not None:
+        c["old"] = old
     if conv is not None:
         c["conv"] = conv
     if twice:
@@ -566,6 +585,15 @@ def matrix_cases(rng, tier, prng):
         for dn in docs + BAD_DOCS:
             cases.append(mk("rtf", dn, st))
     cases.append(mk("rtf", "small", "existing", twice=True))
+    # what the pre-existing file holds is data: unrelated text, nothing, twins of the new content
+    for old in faults.OLDS[1:]:
+        for dn in docs:
+            cases.append(mk("rtf", dn, "existing", old=old))
+        cases.append(mk("rtf", rng.choice(docs), "named_files_dir", old=old, twice=bool(rng.getrandbits(1))))
+        cases.append(mk("rtf", rng.choice(BAD_DOCS), "existing", old=old))
+        fn = rng.choice(["docx", "pdf", "html"])
+        cases.append(mk(fn, rng.choice(docs), "existing", rng.choice(OK_CONVS), old=old))
+        cases.append(mk(rng.choice(["docx", "pdf", "html"]), rng.choice(docs), "existing", rng.choice(BAD_CONVS), old=old))
     for fn in ("docx", "pdf", "html"):
         states = CONV_STATES + (HTML_STATES if fn == "html" else [])
         for st in states:
